@@ -1116,6 +1116,22 @@ def distribution(cases, impl):
                 inc("udp4_checksum_ffff")
         if " gp=err" in o:
             inc("gp_err")
+        if op == "resolve4":
+            hsum = o.split(" ; ")[0]
+            fr = o.split(" ; ")[1].split(" ")[0] if " ; " in o else o
+            inc("resolve4_frame" if len(fr) > 100 else "resolve4_" + fr[:12])
+            if "nr=1" in hsum:
+                inc("resolve4_unnumbered_default_route")
+            if "opts=-" not in hsum:
+                inc("resolve4_pool_raw_options")
+            if " m=- " in hsum:
+                inc("resolve4_no_pool_no_mask")
+            if "r=nil" in hsum:
+                inc("resolve4_no_router")
+            if t[6] != "nil":
+                inc("resolve4_aaa_gateway_override")
+            if t[7] != "nil":
+                inc("resolve4_aaa_netmask_override")
         # --- counters asked for by the second audit
         if op == "ip6" and h not in ("nil", "err", "panic", "hang") and len(h) >= 96:
             f = bytes.fromhex(h)
